@@ -25,7 +25,10 @@ SPEC = {
                 "fake consensus (Peers, State over a real dsstate)", "go-libp2p-gorpc MultiCall / authorization errors"],
     "level_text": "Theorems (Props/C06.v, closed): filter law for every state and every mask, agreement of the two views at every reachable state, "
                   "truthfulness at quiescence, constants disjoint, Match laws, cluster-wide view (once per peer, allocated/remote/unreachable); the models are "
-                  "compared with the real Tracker after every event of generated scripts and with the real globalPinInfoCid/Slice on generated reply vectors",
+                  "compared with the real Tracker after every event of generated scripts and with the real globalPinInfoCid/Slice on generated reply vectors; "
+                  "monitors tied to the statements: cluster-wide view codes 30/31/32 sound and complete (gcid_/gslice_model_passes: a case carrying the model's answer yields []; "
+                  "gcid_/gslice_monitor_sound), tracker codes 22/23 sound and complete for the model (views_agree_/filter_law_monitor_sound, model_views_pass); "
+                  "codes 20/21/24 (script bookkeeping) are not covered by monitor theorems",
     "level_note": "model tied to code by differential testing (generator-bounded); status classes are compared where the two views use different names "
                   "for the same fact (pin_error / unexpectedly_unpinned); truthfulness assumes a CID does not change between meta and non-meta without an unpin",
     "assumptions": ["connector/daemon contract of C16", "every change of the shared state is followed by the matching Track/Untrack",
